@@ -16,23 +16,30 @@ PROP = "C15"
 # ------------------------------------------------------------------ (i) arguments untouched, (ii) repeatable
 
 
+def do_call(case, presented):
+    ot = case.get("outputtype", "Partition")
+    if case.get("ticks") is not None:
+        return sut.call_with_ticks(case["alg"], sut.case_param(case), presented, ot, case.get("opts"), case["ticks"])
+    return sut.call(case["alg"], sut.case_param(case), presented, ot, case.get("opts"))
+
+
 def evaluate_single(case):
     alg = case["alg"]
     labels = [f"alg={alg}", f"pres={case.get('pres', 'list')}", f"out={case.get('outputtype', 'Partition')}"]
     ot = case.get("outputtype", "Partition")
     p = sut.present(case["values"], case.get("pres", "list"), case.get("nseed", 0), case.get("den", 1))
     before = sut.snapshot(p)
-    o1 = sut.call(alg, sut.case_param(case), p, ot, case.get("opts"))
+    o1 = do_call(case, p)
     after = sut.snapshot(p)
     fails = []
     if after != before:
         fails.append(Failure(f"{PROP}/{alg}/argument-modified", {"before": repr(before)[:300], "after": repr(after)[:300],
                                                                  "call_raised": not o1.ok}))
-    o2 = sut.call(alg, sut.case_param(case), p, ot, case.get("opts"))
+    o2 = do_call(case, p)
     if sut.snapshot(p) != before and after == before:
         fails.append(Failure(f"{PROP}/{alg}/argument-modified-by-the-second-call", {}))
     p3 = sut.present(case["values"], case.get("pres", "list"), case.get("nseed", 0), case.get("den", 1))
-    o3 = sut.call(alg, sut.case_param(case), p3, ot, case.get("opts"))
+    o3 = do_call(case, p3)
     inconclusive = None
     if o1.describe() != o2.describe() or o1.describe() != o3.describe():
         if alg == "ilp":
@@ -46,6 +53,8 @@ def evaluate_single(case):
                                  {"first": o1.describe(), "second_same_object": o2.describe(), "third_fresh_object": o3.describe()}))
     if not o1.ok:
         labels.append("call-raised")
+    if case.get("ticks") is not None:
+        labels.append("time-limited-under-counting-clock")
     nontrivial = len(case["values"]) >= 2 and (case.get("pres", "list") != "list" or not o1.ok or len(set(case["values"])) < len(case["values"]))
     return Result(fails, labels, nontrivial, inconclusive, o1.describe(), subcases=3)
 
@@ -70,6 +79,8 @@ def single_cases(draw):
         case["numbins"] = draw(st.sampled_from([1, 3]))
         case["invalid"] = True
     case["outputtype"] = draw(st.sampled_from(["Partition", "Partition", "PartitionAndSumsTuple", "Sums", "SortedSums", "BinCount"]))
+    if case["alg"] in sut.ANYTIME_MODULES and not case.get("invalid") and draw(st.integers(0, 1)) == 0:
+        case["ticks"] = draw(st.integers(1, 40))          # a time limit, in readings of a counting clock
     return case
 
 
@@ -83,6 +94,8 @@ def large_single_cases(draw):
 
 def valid_single(case):
     alg = case.get("alg")
+    if case.get("ticks") is not None and not (alg in sut.ANYTIME_MODULES and isinstance(case["ticks"], int) and 1 <= case["ticks"] <= 10 ** 6):
+        return False
     if case.get("large"):
         return cases.valid_large_case(case)
     if case.get("invalid"):
@@ -136,6 +149,8 @@ def evaluate_history(case):
     labels = [f"calls={len(calls)}"] + sorted({f"alg={c['alg']}" for c in calls if "alg" in c})
     if any("mutate" in c for c in calls):
         labels.append("caller-changes-an-input-between-calls")
+    if any(c.get("ticks") is not None for c in calls):
+        labels.append("time-limited-call-under-counting-clock")
     real_calls = [c for c in calls if "alg" in c]
     resp = ask_server({"inputs": case["inputs"], "calls": calls})
     if "server_error" in resp:
@@ -227,6 +242,8 @@ def fresh_call(draw, inputs, j, alg):
             opts = {"partition_difference": draw(st.integers(1, 3))}
         if opts:
             call["opts"] = opts
+        if alg in sut.ANYTIME_MODULES and (alg == "cg" or k == 2) and draw(st.integers(0, 2)) == 0:
+            call["ticks"] = draw(st.integers(1, 40))      # a time limit, in readings of a counting clock that starts at 0 for the call
     else:
         top = max(values)
         if alg in sut.PACKERS and draw(st.integers(0, 3)) == 0 and top >= 2:
@@ -365,6 +382,8 @@ def valid_history(case):
                 return False
             continue
         if c.get("alg") not in sut.ALL_ALGS or not isinstance(c.get("input"), int) or not (0 <= c["input"] < len(ins)):
+            return False
+        if c.get("ticks") is not None and not (c["alg"] in sut.ANYTIME_MODULES and isinstance(c["ticks"], int) and 1 <= c["ticks"] <= 10 ** 6):
             return False
         if not isinstance(c.get("param"), int) or c["param"] < 1:
             return False
